@@ -676,6 +676,14 @@ func (db *DB) rollbackJournalSegment(ctx context.Context, r *JournalReader, dbFi
 			return fmt.Errorf("read frame(%d): %w", i, err)
 		}
 
+		// Like SQLite, stop at a record for page zero or the lock page and skip
+		// pages beyond the size of the database before the transaction.
+		if pgno == 0 || pgno == ltx.LockPgno(db.pageSize) {
+			return nil
+		} else if pgno > r.commit {
+			continue
+		}
+
 		// Write data to the database file.
 		if err := db.writeDatabasePage(dbFile, pgno, data, true); err != nil {
 			return fmt.Errorf("write to database (pgno=%d): %w", pgno, err)
